@@ -9,7 +9,7 @@ CLAIM = ("Decided per explored history by executable oracles defined in Coq (Ora
          "stem and extension re-assemble the file name for every name (C16_stem_ext_roundtrip), and checked against the "
          "implementation that a logger built from the derived spec writes to exactly that path. The model's naming functions are tied "
          "to the code by the correspondence check. Partial: no proof yet that every model run satisfies name_documented.")
-THEOREMS = ["C16_stem_ext_roundtrip", "C16_doc_fixed_is_fixed"]
+THEOREMS = ["C16_stem_ext_roundtrip", "C16_doc_fixed_is_fixed", "C16_name_roundtrip"]
 TRUSTED = ["modelled, not verified: std::path::Path (file_stem, extension, parent, join), symlink/read_link"]
 ASSUMPTIONS = ["the start-time name part (use_timestamp) is exercised separately (known finding V1, see DESIGN.md)"]
 RULE = ("flw cases: all combinations of present/absent/empty basename and discriminant, suffix present/absent, all namings, rotation "
@@ -22,9 +22,9 @@ def gen(rng, tier):
     rot = rng.random() < 0.85
     base = rng.choice([b"a", b"app", b"", b"my.prog"])
     disc = rng.choice([None, None, b"d1", b"", b"x_y"])
-    if not base and not disc:
-        base = b"a"
     sfx = rng.choice([b"log", b"log", b"trc", None])
+    if not rot and not base and not disc and sfx is None:
+        base = b"a"          # without rotation the file name must not be empty
     naming = rng.choice(g.NAMINGS)
     cfg = g.Cfg(base=base, disc=disc, sfx=sfx, crit=("s%d" % rng.choice([0, 6, 30])) if rot else None, naming=naming,
                 cleanup=rng.choice(["n", "n", "l2", "g1", "b1.1"]) if rot else "n", link=rng.random() < 0.6,
